@@ -38,7 +38,7 @@ USER_SPACES = {
 
 KERN_TYPE = """  type, extends(kernel_type) :: {name}
      type(go_arg), dimension(2) :: meta_args =    &
-          (/ go_arg(GO_READWRITE, {ptype}, GO_POINTWISE), go_arg(GO_READ, {ptype}, GO_POINTWISE) /)
+          (/ go_arg(GO_READWRITE, {ptype}, GO_POINTWISE), go_arg({acc2}, {ptype2}, GO_POINTWISE) /)
      integer :: ITERATES_OVER = {space}
      integer :: index_offset = {offset}
   contains
@@ -48,7 +48,7 @@ KERN_TYPE = """  type, extends(kernel_type) :: {name}
 KERN_CODE = """  subroutine {name}_code(i, j, fa, fb)
     integer, intent(in) :: i, j
     real(go_wp), intent(inout), dimension(:,:) :: fa
-    real(go_wp), intent(in), dimension(:,:) :: fb
+    real(go_wp), intent(inout), dimension(:,:) :: fb
     fa(i,j) = fa(i,j) + fb(i,j)
   end subroutine {name}_code
 """
@@ -58,8 +58,12 @@ def make_files(workdir, kernels):
     """kernels: [(name, offset, ptype, space)] all invoked in one invoke on fields f1, f2"""
     lines = ["module visit_mod", "  use kind_params_mod", "  use kernel_mod", "  use argument_mod",
              "  use field_mod", "  use grid_mod", "  implicit none"]
-    for name, offset, ptype, space in kernels:
-        lines.append(KERN_TYPE.format(name=name, ptype=PTYPES[ptype], space=space.upper(), offset=offset.upper()))
+    for name, offset, ptype, space, *second in kernels:
+        # the second argument is read on the same points, or (second = a point type) ALSO written, on other points:
+        # the loop bounds still follow the first updated argument (metadata order)
+        p2 = second[0] if second and second[0] else None
+        lines.append(KERN_TYPE.format(name=name, ptype=PTYPES[ptype], space=space.upper(), offset=offset.upper(),
+                                      acc2="GO_WRITE" if p2 else "GO_READ", ptype2=PTYPES[p2 or ptype]))
     lines.append("contains")
     for name, *_ in kernels:
         lines.append(KERN_CODE.format(name=name))
@@ -354,15 +358,16 @@ def transformations():
 
 
 def work(job):
-    """job: (offset, ptype, space1, space2)"""
-    offset, ptype, sp1, sp2 = job
+    """job: (offset, ptype, space1, space2[, point type of a second, written argument])"""
+    offset, ptype, sp1, sp2 = job[:4]
+    second = job[4] if len(job) > 4 else None
     outs = []
     workdir = tempfile.mkdtemp(prefix="c25_")
     try:
         load_config(workdir)
-        kernels = [("visit_a", offset, ptype, sp1), ("visit_b", offset, ptype, sp2)]
+        kernels = [("visit_a", offset, ptype, sp1, second), ("visit_b", offset, ptype, sp2, None)]
         make_files(workdir, kernels)
-        base_key = {"template": f"{offset}:{ptype}", "params": {"space1": sp1, "space2": sp2}}
+        base_key = {"template": f"{offset}:{ptype}", "params": {"space1": sp1, "space2": sp2, "second": second}}
         try:
             base_txt = generate(workdir)
         except Exception as e:  # pylint: disable=broad-except
@@ -550,6 +555,10 @@ def main():
                 jobs.append((off, pt, sp, sps[(k + 1) % len(sps)]))
     if tier == "quick":
         jobs = [j for n, j in enumerate(jobs) if j[1] in ("go_ct", "go_cu") or n % 3 == 0]
+    # kernels that update two fields on different grid-point types
+    others = {"go_cu": "go_ct", "go_ct": "go_cv", "go_cv": "go_cf", "go_cf": "go_cu"}
+    jobs += [(off, pt, sp, sp2, others[pt]) for off, pt, sp, sp2 in list(jobs)
+             if pt in others and (tier == "thorough" or sp in ("go_internal_pts", "us_ns_halo"))]
     results = core.pmap(work, jobs)
     flat = []
     for r in results:
